@@ -59,6 +59,8 @@ type Cluster struct {
 	CommitReply func(from, to uint64, pubKey, sig []byte) ([]byte, []byte)
 	// SuitableOrder (optional) decides what peers.Suitable returns on a node.
 	SuitableOrder func(node uint64, n uint32, all map[uint64]*core.Endpoint) []*core.Endpoint
+	// ContributeReply (optional) may tamper with the reply to a contribution (secret and vector are mutable).
+	ContributeReply func(from, to uint64, secret *bls.SecretKey, vvec *[]bls.PublicKey) Action
 	// Virtual (optional) answers contributions addressed to configured peers that are not instantiated.
 	Virtual func(from, to uint64, account string, secret bls.SecretKey, vvec []bls.PublicKey) (bls.SecretKey, []bls.PublicKey, error)
 	// CommitOrder (optional) serialises the parallel commit requests of a generation in the given recipient order.
@@ -359,6 +361,12 @@ func (s *clusterSender) SendContribution(_ context.Context, peer *core.Endpoint,
 	for i, k := range out.GetVerificationVector() {
 		if err := rv[i].Deserialize(k); err != nil {
 			return bls.SecretKey{}, nil, errors.New("returned invalid verification vector")
+		}
+	}
+	if s.c.ContributeReply != nil {
+		switch s.c.ContributeReply(s.from.ID, peer.ID, &rs, &rv) {
+		case Drop, DeliverThenError:
+			return bls.SecretKey{}, nil, errors.New("reply lost")
 		}
 	}
 	return rs, rv, nil
